@@ -94,7 +94,8 @@ def seed_sampler(sampler, seed):
 def log_inner(inner, static):
     """remembers (on the static sampler object) every point set its own inner sampler produced"""
     orig = inner.sample_points
-    static._c04_inner_log = []
+    if not hasattr(static, "_c04_inner_log"):
+        static._c04_inner_log = []
 
     def sample_points(*a, **kw):
         pts = orig(*a, **kw)
@@ -172,6 +173,8 @@ def build_sampler(spec, vars_, world, seed=None):
     op = spec["op"]
     if op == "empty":
         return tp.samplers.EmptySampler()
+    if op == "empty_static":
+        return tp.samplers.PointSampler.empty()          # EmptySampler().make_static()
     share = spec.get("share")
     if share is not None and share in world.samplers:
         return world.samplers[share]
@@ -216,6 +219,8 @@ def build_sampler(spec, vars_, world, seed=None):
 def sampler_class(spec):
     if spec is None or spec["op"] == "empty":
         return "empty"
+    if spec["op"] == "empty_static":
+        return "static_empty"
     if spec["op"] == "static":
         return "static_inf" if spec.get("interval") is None else "static_finite_interval"
     if spec["op"] == "leaf" and spec["kind"].startswith("adaptive"):
@@ -243,7 +248,7 @@ def sampler_shape(spec):
         return "(%s+%s)" % (sampler_shape(spec["a"]), sampler_shape(spec["b"]))
     if spec["op"] == "static":
         return "S%s[%s]" % ("inf" if spec.get("interval") is None else "fin", sampler_shape(spec["a"]))
-    return "E"
+    return "Es" if spec["op"] == "empty_static" else "E"
 
 
 # ---------------------------------------------------------------------------------------------
